@@ -15,7 +15,7 @@ RULE = ('programs from the typed generator (core + aggregation + negation + impl
         '(which the original text is also checked against). Non-trivial = texts differ '
         'and the result is non-empty; distinct by (variant text, predicate).')
 ASSUMPTIONS = ['reference evaluator lv/ref.py arbitrates', 'CPython sqlite3']
-OPTS = dict(p_colnames=0.0, p_neg=0.25, p_agg=0.3, p_distinct=0.35, p_impl=0.15,
+OPTS = dict(p_colnames=0.0, p_in_lit_left=0.15, p_neg=0.25, p_agg=0.3, p_distinct=0.35, p_impl=0.15,
             p_null_fact=0.0, p_or=0.3, p_fcall=0.12, p_short=0.6, p_value=0.45,
             agg_ops=('Sum', 'Min', 'Max', '+'),
             n_idb=(2, 3), nest_depth=2)
